@@ -71,7 +71,8 @@ def run(module, cfg=None, cfg_text=None, env=None, workers=None, simulate=None, 
         if light:   # many small single-worker JVMs side by side (trace validation chunks)
             jopts = ["-XX:+UseSerialGC", "-Xmx2g", "-Xss64m", "-XX:TieredStopAtLevel=1"]
         else:
-            jopts = ["-XX:+UseParallelGC", "-Xmx" + heap, "-Xss64m"]
+            jopts = ["-XX:+UseParallelGC", "-XX:ParallelGCThreads=%d" % max(2, min(8, int(workers) // 2)),
+                     "-Xmx" + heap, "-Xss64m"]
         if dfs:
             jopts.append("-Dtlc2.tool.queue.IStateQueue=StateDeque")
         cmd = ["java"] + jopts + ["-cp", JAR + ":" + DEPS, "tlc2.TLC",
